@@ -110,6 +110,13 @@ func (g *DependencyGraph) AddProvider(provider Provider) error {
 		}
 		g.nodes[nodeKey] = node
 	}
+
+	// Remember the previous state so a rejected add can be rolled back
+	prevProvider := node.Provider
+	prevDependencies := node.Dependencies
+	prevEdges, hadEdges := g.edges[nodeKey]
+	var createdNodes []NodeKey
+
 	node.Provider = provider
 
 	// Clear existing edges for this node (in case of replacement)
@@ -133,6 +140,7 @@ func (g *DependencyGraph) AddProvider(provider Provider) error {
 				Dependencies: make([]NodeKey, 0),
 				Dependents:   make([]NodeKey, 0),
 			}
+			createdNodes = append(createdNodes, depKey)
 		}
 	}
 
@@ -148,9 +156,22 @@ func (g *DependencyGraph) AddProvider(provider Provider) error {
 
 	// Check for cycles immediately
 	if err := g.detectCyclesFrom(nodeKey); err != nil {
-		// Remove the node if it creates a cycle
-		delete(g.nodes, nodeKey)
-		delete(g.edges, nodeKey)
+		// Restore the graph exactly as it was before this call
+		for _, created := range createdNodes {
+			delete(g.nodes, created)
+		}
+		if exists {
+			node.Provider = prevProvider
+			node.Dependencies = prevDependencies
+			if hadEdges {
+				g.edges[nodeKey] = prevEdges
+			} else {
+				delete(g.edges, nodeKey)
+			}
+		} else {
+			delete(g.nodes, nodeKey)
+			delete(g.edges, nodeKey)
+		}
 		g.updateDegrees()
 		return err
 	}
